@@ -830,3 +830,51 @@ def _values_equal_real(a, b):
         if xn != yn or (not xn and float(x) != float(y) if isinstance(x, (int, float, np.number)) else (not xn and x != y)):
             return False
     return True
+
+
+# ------------------------------------------------------------------ head / tail / sample (C20)
+def subsample_case(v, shape, N, which):
+    """which: subset of {'head','tail','sample'} that is passed (the others stay None)"""
+    lo = v.int("lo")
+    if shape == "series":
+        obj = v.series("a_", "float", N, nullable=False, sname="a", labels="l")
+        schema = pa.SeriesSchema(float, Check.ge(lo), name="a", unique=v.bool("unique"))
+    else:
+        obj = v.frame([("a", "float", False), ("b", "int")], N, labels="l")
+        schema = pa.DataFrameSchema({"a": pa.Column(float, Check.ge(lo), unique=v.bool("unique")), "b": pa.Column(int)},
+                                    checks=Check(lambda d: d["b"] <= 5) if shape == "frame_wide" else None)
+    rng = list(range(N + 1))
+    h = v.choice("h", rng) if "head" in which else None
+    t = v.choice("t", rng) if "tail" in which else None
+    n = v.choice("n", rng) if "sample" in which else None
+    rs = 7
+    if not v.sym:
+        obj = H.with_sample_stub(obj, v.vals, N)
+    snap = H.snapshot(obj)
+    o = H.outcome(lambda: schema.validate(obj, head=h, tail=t, sample=n, random_state=rs))
+    xa, _ = v.cells("a_", "float", N, False)
+    picks = [z3.Bool(f"sample!{rs}!{i}") for i in range(N)]
+    sel = []
+    for i in range(N):
+        s = []
+        if h is not None:
+            s.append(z3.BoolVal(i < h))
+        if t is not None:
+            s.append(z3.BoolVal(i >= N - t))
+        if n is not None:
+            s.append(picks[i])
+        sel.append(zor(s) if which else z3.BoolVal(True))
+    ok_rows = [z3.Implies(sel[i], xa[i] >= v.z(lo)) for i in range(N)]
+    uniq = v.z(schema.unique if shape == "series" else schema.columns["a"].unique)
+    nodup = zand(z3.Not(z3.And(sel[i], sel[j], xa[i] == xa[j])) for i in range(N) for j in range(i))
+    wide = zand(z3.Implies(sel[i], z3.Int(f"b_{i}") <= 5) for i in range(N)) if shape == "frame_wide" else z3.BoolVal(True)
+    spec = z3.And(zand(ok_rows), z3.Implies(uniq, nodup), wide)
+    asserts = [("subsample/channel", v.holds(channel_ok(o)))]
+    sample_possible = True
+    if o["kind"].startswith("leak:ValueError") and n is not None:
+        # pandas refuses n > population; with n <= N this cannot happen
+        sample_possible = False
+    asserts.append(("subsample/verdict", v.iff(o["kind"] == "accept", spec)))
+    if o["kind"] == "accept":
+        asserts.append(("subsample/returns_whole_object", H.equal_to_snapshot(v, o["out"], snap)))
+    return dict(obs=o, asserts=asserts, facts=dict(kind=o["kind"], reason=o.get("reason"), h=h, t=t, n=n, msg=o.get("msg")))
